@@ -68,7 +68,9 @@ def dataset_specs(draw, systems=None, max_nq=4, max_na=3, families=("power", "po
     fmt = draw(st.sampled_from(["yaml", "json"]))
     key_seed = draw(st.integers(0, 10 ** 6))
     n_extra_keys = draw(st.integers(0, 4))
-    return {"nv": nv, "nq": nq, "na": na, "seed": seed, "vmax": vmax, "span": span, "family": family,
+    # the line introducing the lattice block is free text for the reader
+    lat_header = draw(st.sampled_from([None, None, None, "a b c", "# axis lengths (bohr)"]))
+    return {"lat_header": lat_header, "nv": nv, "nq": nq, "na": na, "seed": seed, "vmax": vmax, "span": span, "family": family,
             "system": system, "apply_system": bool(apply_system), "lattice": bool(has_lattice),
             "interpolator": interp, "order": order, "b0": b0, "bp": bp, "nt": nt, "dt": dt, "tmin": tmin,
             "ntv": ntv, "ratio": ratio, "f0": f0, "f1": f1, "weights_int": weights_int, "cellmass": cellmass,
@@ -324,7 +326,7 @@ def write_input02(path, ds, keys=None, table=None, volumes=None, names=None, row
         lines.append(fnum(volumes[i]) + " " + " ".join(fnum(table[i, KEYS21.index(k)]) for k in keys))
     if with_lattice:
         lat = ds.lattice(volumes) if lattice is None else lattice
-        lines.append(" lattice_a lattice_b lattice_c")
+        lines.append(ds.spec.get("lat_header") or " lattice_a lattice_b lattice_c")
         for i in rows:
             lines.append(" ".join(fnum(x) for x in lat[i]))
     with open(path, "w") as fp:
@@ -371,6 +373,20 @@ class Workdir:
 
     def __exit__(self, *a):
         shutil.rmtree(self.path, ignore_errors=True)
+
+
+class ReusedWorkdir:
+    """The same directory for every case of this process (files of the previous case removed, the directory and hence every
+    file path stay): users re-run commands in one directory, nothing may be remembered about a path."""
+
+    def __init__(self, tag):
+        self.tag = tag
+
+    def __enter__(self):
+        return reused_dir(self.tag)
+
+    def __exit__(self, *a):
+        pass
 
 
 # ----------------------------------------------------------------------------------------------------
